@@ -464,6 +464,41 @@ func checkC15(r *Result, rng *rand.Rand, thorough bool) {
 	}
 	judgeC15(r, env, streams)
 	r.sample(fmt.Sprintf("%d streams", len(streams)))
+	refusedCallsThenReload(r, env, cred)
+}
+
+// refusedCallsThenReload: calls the server refuses at the RPC level (an unsupported credential flavour, a garbled
+// AUTH_SYS body) are answered once and must leave nothing behind: afterwards an operator's policy reload completes
+// and old and new connections are still served. (A refusal path that keeps the policy read-lock shows nothing until
+// the next reload, which then never returns while every other call is told to retry.)
+func refusedCallsThenReload(r *Result, env *c15Env, cred []byte) {
+	xid := uint32(0x51510000)
+	null := func() c15Rec {
+		xid++
+		return c15Rec{Payload: encCallHdr(xid, 2, progNFS, 3, 0, 1, cred, 0, nil), Xid: xid}
+	}
+	xid++
+	dh := c15Rec{Payload: encCallHdr(xid, 2, progNFS, 3, 1, 3, []byte{0, 0, 0, 0}, 0, nil), Xid: xid} // AUTH_DH
+	xid++
+	garbled := c15Rec{Payload: encCallHdr(xid, 2, progNFS, 3, 1, 1, []byte{1, 2, 3}, 0, nil), Xid: xid}
+	for _, st := range []c15Stream{{Recs: []c15Rec{null(), dh, null()}}, {Recs: []c15Rec{null(), garbled, null()}}} {
+		env.play(st, false)
+		r.count("refused-then-reload")
+	}
+	n := env.w.srv.NFS
+	o := n.GetExportOptions()
+	_, hung := returnsInTime(func() error {
+		return n.UpdatePolicyOptions(absnfs.PolicyOptions{ReadOnly: o.ReadOnly, Secure: o.Secure, AllowedIPs: o.AllowedIPs, Squash: o.Squash,
+			MaxFileSize: o.MaxFileSize, EnableRateLimiting: o.EnableRateLimiting, RateLimitConfig: o.RateLimitConfig, TLS: o.TLS})
+	})
+	ops := []string{"NULL; call with credential flavour 3 (AUTH_DH); NULL", "NULL; call with a 3-byte AUTH_SYS body; NULL", "UpdatePolicyOptions(unchanged policy)"}
+	if hung {
+		r.violate(Violation{Class: "C15/stops-serving-after-refused-call", What: "after calls that were refused at the RPC level, a policy reload with an unchanged policy did not return within 5 s (a refusal path kept the policy lock): every other connection is told to retry for as long as it waits", Ops: ops})
+		return
+	}
+	if !env.probe() {
+		r.violate(Violation{Class: "C15/stops-serving-after-refused-call", What: "after refused calls and a policy reload a conformant client on a new connection is no longer served", Ops: ops})
+	}
 }
 
 // ---- extreme but well-formed arguments, in a child process ----
